@@ -5,13 +5,11 @@ import (
 	"encoding/json"
 	"fmt"
 	"os"
-	"os/exec"
 	"runtime"
 	"runtime/debug"
 	"runtime/pprof"
 	"strconv"
 	"strings"
-	"sync"
 	"sync/atomic"
 	"time"
 	"verif/harness/xplore"
@@ -53,7 +51,7 @@ func main() {
 		os.Exit(2)
 	}
 	if os.Getenv("VERIF_SUPERVISED") == "" {
-		os.Exit(supervise(id, tier))
+		os.Exit(ev.Supervise(id, tier))
 	}
 	seed, _ := strconv.ParseInt(os.Getenv("VERIF_SEED"), 10, 64)
 	// In this kind of VM garbage-collection cycles (stop-the-world hand-shakes) and first-touch page faults are
@@ -193,75 +191,6 @@ func libraryFrame(dump string) string {
 	}
 	return ""
 }
-
-// supervise runs the check in a child process. Some failures of the code under test cannot be caught inside the
-// process that suffers them: a goroutine stack that outgrows the runtime's limit, a concurrent map access, a deadlock
-// the runtime detects — the Go runtime ends the process with "fatal error: …". The parent then looks at what the child
-// left on its standard error: if a goroutine was inside the library, that is a violation with a crash record, like an
-// uncaught panic; otherwise the failure is passed on as it is.
-func supervise(id, tier string) int {
-	exe, err := os.Executable()
-	if err != nil {
-		fmt.Println("HARNESS-ERROR:", err)
-		return 2
-	}
-	cmd := exec.Command(exe, os.Args[1:]...)
-	cmd.Env = append(os.Environ(), "VERIF_SUPERVISED=1")
-	cmd.Stdout = os.Stdout
-	cmd.Stdin = os.Stdin
-	tail := &tailWriter{max: 1 << 20}
-	cmd.Stderr = tail
-	err = cmd.Run()
-	os.Stderr.Write(tail.head())
-	if err == nil {
-		return 0
-	}
-	rc := 2
-	if ee, ok := err.(*exec.ExitError); ok && ee.ExitCode() >= 0 {
-		rc = ee.ExitCode()
-	}
-	if rc == 1 {
-		return 1
-	}
-	text := string(tail.head())
-	if i := strings.Index(text, "fatal error: "); i >= 0 {
-		kind := text[i+len("fatal error: "):]
-		if j := strings.IndexByte(kind, '\n'); j >= 0 {
-			kind = kind[:j]
-		}
-		if where := libraryFrame(text[i:]); where != "" {
-			sig := "fatal-error-in-library:" + ev.SigSafe(kind) + ":" + where
-			if len(text) > 64<<10 {
-				text = text[:64<<10]
-			}
-			path := ev.WriteCrash(id, tier, sig, text)
-			fmt.Printf("VIOLATION property=%s replay=%s\n  sig=%s\n  the Go runtime ended the check with \"fatal error: %s\" while a goroutine was inside %s\n", id, path, sig, kind, where)
-			return 1
-		}
-	}
-	return rc
-}
-
-// tailWriter keeps the first max bytes written to it.
-type tailWriter struct {
-	mu  sync.Mutex
-	buf []byte
-	max int
-}
-
-func (t *tailWriter) Write(p []byte) (int, error) {
-	t.mu.Lock()
-	if room := t.max - len(t.buf); room > 0 {
-		if len(p) < room {
-			room = len(p)
-		}
-		t.buf = append(t.buf, p[:room]...)
-	}
-	t.mu.Unlock()
-	return len(p), nil
-}
-
-func (t *tailWriter) head() []byte { t.mu.Lock(); defer t.mu.Unlock(); return t.buf }
 
 func replay(path string) int {
 	b, err := os.ReadFile(path)
